@@ -501,6 +501,7 @@ pub fn drive(eng: Box<dyn Engine>, ctx: Ctx, cfg: RunConfig) -> i32 {
     coverage.insert("units".into(), json!(m.units_done));
     coverage.insert("runs_per_hour".into(), json!(if explore_s > 0.0 { (evaluations as f64 / explore_s * 3600.0) as u64 } else { 0 }));
     coverage.insert("explore_wall_s".into(), json!(explore_s));
+    coverage.insert("seeding".into(), json!(format!("one base seed ({}); every unit derives its own sub-seed = hash(base, engine, unit index) and draws every case from it, so seeds per hour = units per hour = {}", ctx.seed, if explore_s > 0.0 { (m.units_done as f64 / explore_s * 3600.0) as u64 } else { 0 })));
     coverage.insert("workers".into(), json!(cfg.workers));
     coverage.insert("counters".into(), json!(m.stats));
     for (k, s) in &m.sets {
